@@ -621,8 +621,11 @@ def _run(ctx):
     for k in range(80 if q else 1000):
         n = rng.choice([1, 2, 3, 6, 12, 40])
         r = rng.choice([1, 2, 3, 6])
-        xs = [rng.randint(-r, r) for _ in range(n)]
-        ys = [rng.randint(0, r) for _ in range(n)]
+        # independent ranges: more distinct x than y values, the reverse, and equal (a key built from value codes must not collide)
+        rx, ry = (r, r) if k % 4 == 0 else (rng.choice([0, 1, 2]), rng.choice([3, 6, 9])) if k % 4 == 1 else (rng.choice([3, 6, 9]), rng.choice([0, 1, 2])) if k % 4 == 2 else (rng.choice([1, 2, 6]), rng.choice([1, 2, 6]))
+        xs = [rng.randint(-rx, rx) for _ in range(n)]
+        ys = [rng.randint(0, ry) for _ in range(n)]
+        ctx.count('discrete_more_y_than_x' if len(set(ys)) > len(set(xs)) else 'discrete_other_shape')
         halves = k % 3 == 0
         sort = k % 2 == 0
         nt = len(set(zip(xs, ys))) < n
